@@ -172,7 +172,9 @@ func (s *sorter) zero(t types.Type) string {
 	case *types.Slice:
 		return "nilS"
 	case *types.Array:
-		return fmt.Sprintf("((as const %s) %s)", s.sortOf(t), s.zero(u.Elem()))
+		// the element of a constant array must be a value literal for cvc5 and z3 4.8 (not a defined constant)
+		z := strings.NewReplacer("nilR", "(R 0)", "nilI", "(mkI 0 (R 0))", "nilS", "(mkS (R 0) 0 0 0)").Replace(s.zero(u.Elem()))
+		return fmt.Sprintf("((as const %s) %s)", s.sortOf(t), z)
 	case *types.Struct:
 		si := s.structOf(t)
 		var args []string
